@@ -275,7 +275,7 @@ class IdentityLinearOperator(ConstantDiagLinearOperator):
         new_kwargs = {}
         for arg in self._args:
             if hasattr(arg, "to"):
-                if hasattr(arg, "dtype") and arg.dtype.is_floating_point == dtype.is_floating_point:
+                if dtype is not None and hasattr(arg, "dtype") and arg.dtype.is_floating_point == dtype.is_floating_point:
                     new_args.append(arg.to(dtype=dtype, device=device))
                 else:
                     new_args.append(arg.to(device=device))
@@ -286,6 +286,7 @@ class IdentityLinearOperator(ConstantDiagLinearOperator):
                 new_kwargs[name] = val.to(dtype=dtype, device=device)
             else:
                 new_kwargs[name] = val
-        new_kwargs["device"] = device
-        new_kwargs["dtype"] = dtype
+        # (a device-only or dtype-only move keeps the other attribute)
+        new_kwargs["device"] = device if device is not None else self._device
+        new_kwargs["dtype"] = dtype if dtype is not None else self._dtype
         return self.__class__(*new_args, **new_kwargs)
